@@ -271,7 +271,7 @@ func init() {
 			func(r *Rng, i int) interface{} { return genTrieCase(r, i) },
 			func(f string) (interface{}, error) {
 				var c trieCase
-				if err := readJSON(f, &c); err != nil {
+				if err := readCase(f, &c); err != nil {
 					return nil, err
 				}
 				return &c, nil
